@@ -409,14 +409,14 @@ recs_dups: dict = {}  # id(recs dict) -> labels the drawing carries more than on
 
 
 class Rec:
-    __slots__ = ("obs", "picked", "ok", "vols", "scope", "digest", "mark")
+    __slots__ = ("obs", "picked", "ok", "vols", "const_ok", "digest", "mark")
 
     def __init__(self):
         self.obs = None
         self.picked = None
         self.ok = False
         self.vols = {}
-        self.scope = {}
+        self.const_ok = False
         self.digest = None
         self.mark = {}
 
@@ -429,7 +429,7 @@ def rot(lst, k):
     return lst[k:] + lst[:k]
 
 
-def analyse(ctx, src_name, path, steps, only=None, count=True):
+def analyse(ctx, src_name, path, steps, only=None, count=True, base=None):
     """Parses `path` (variant `steps` of the bundled file `src_name`) with molli and checks every
     label against the independent walk of the same file.  Returns {label: Rec}."""
     vc = vclass(steps)
@@ -467,8 +467,14 @@ def analyse(ctx, src_name, path, steps, only=None, count=True):
             r.picked = f1.xfrag_cache[k].get("id")
         except Exception:
             r.picked = None
+        if base is not None and (k not in base or not base[k].const_ok):
+            # already reported on the bundled file itself: what follows would be consequential noise
+            continue
         if not isinstance(o, dict):
-            viol(f"lookup[{vc}]:raised:{o[1]}/{o[2]}", f"file[{k!r}] raised {o[1]} (cause {o[2]}: {o[3]})", k)
+            if base is None:
+                viol(f"lookup:raised:{o[1]}/{o[2]}", f"{src_name}[{k!r}] raised {o[1]} (cause {o[2]}: {o[3]})", k)
+            else:
+                viol(f"variant[{vc}]:lookup-raised:{o[1]}/{o[2]}", f"{src_name}[{k!r}] parses in the bundled file but raises {o[1]} (cause {o[2]}: {o[3]}) after {vc}", k)
             ctx.outcome(("raised", o[1], o[2]))
             continue
         r.obs = o
@@ -519,6 +525,7 @@ def analyse(ctx, src_name, path, steps, only=None, count=True):
         if bad or mapping is None:
             ctx.outcome(("bad", tuple(s for s, _ in bad)))
             continue
+        r.const_ok = True
         # ---- geometry ----------------------------------------------------------------------------
         coords = o["coords"]
         if coords.shape != (len(o["atoms"]), 3) or not np.all(np.isfinite(coords)):
@@ -767,7 +774,7 @@ def check_file(ctx, path, variants=None, only=None, count_base=True):
     for n, steps in enumerate(variants):
         dst = work / f"v{n:04d}.cdxml"
         back = build_variant(path, steps, dst)
-        var = analyse(ctx, name, dst, steps, only)
+        var = analyse(ctx, name, dst, steps, only, base=base)
         mf = None
         if len(steps) == 1 and steps[0][0] == "mirror1":
             root = ET.parse(path).getroot()
